@@ -17,7 +17,7 @@ for p in $PIDS; do
   cp evidence/$p.json /var/tmp/ev-$p-$$.json 2>/dev/null
   VERIF_REPO=$M timeout 3000 ./check $p --tier quick > /var/tmp/seedrun-$p-$$.log 2>&1
   rc=$?
-  { echo "# ./check $p --tier quick with seeded/$ID/patch.diff applied: exit $rc"; grep -E "VIOLATION|KNOWN-FINDING|BROKEN|done in" /var/tmp/seedrun-$p-$$.log | cut -c1-600 | head -20; } > $SD/check_$p.txt
+  { echo "# ./check $p --tier quick with seeded/$ID/patch.diff applied: exit $rc"; grep -E "VIOLATION" /var/tmp/seedrun-$p-$$.log | cut -c1-600 | head -8; grep -E "BROKEN|done in" /var/tmp/seedrun-$p-$$.log | cut -c1-600 | head -8; echo "# KNOWN-FINDING lines: $(grep -c KNOWN-FINDING /var/tmp/seedrun-$p-$$.log)"; } > $SD/check_$p.txt
   echo "seedrun $ID $p: exit $rc $(grep -c VIOLATION /var/tmp/seedrun-$p-$$.log) violation line(s)"
   [ -f /var/tmp/ev-$p-$$.json ] && mv /var/tmp/ev-$p-$$.json evidence/$p.json
   rm -f /var/tmp/seedrun-$p-$$.log
